@@ -524,7 +524,7 @@ func (r *Run) checkLinearizable(o *batchOutcome) {
 		r.W.Count.Inc("porcupine.illegal")
 		prop := "C02"
 		switch r.Sc.Prop {
-		case "C01", "C06", "C07", "C09", "C11", "C14", "C15", "C20":
+		case "C01", "C06", "C07", "C09", "C11", "C14", "C15", "C18", "C20":
 			// the batch was generated as this property's conflict scenario
 			prop = r.Sc.Prop
 		}
@@ -825,6 +825,15 @@ func genBatch(prop string, g *Gen, m *Model, rng *SplitMix) []Cmd {
 		if rng.Chance(1, 2) {
 			cmds = append(cmds, Cmd{Op: "compact"})
 		}
+	case "C18":
+		// several commands arrive at a store whose lock file is missing
+		n := 2 + rng.Intn(2)
+		for i := 0; i < n; i++ {
+			cmds = append(cmds, mutation())
+		}
+		if rng.Chance(1, 2) {
+			cmds = append(cmds, Cmd{Op: "init"})
+		}
 	case "C09":
 		// prune racing writers that make its targets ineligible
 		cmds = []Cmd{{Op: "prune", Yes: true}}
@@ -958,6 +967,11 @@ func runConcSample(bin, prop string, seed uint64, thorough bool) *RunReport {
 			sc.Steps = append(sc.Steps, st)
 			r.ExecStep(st)
 		}
+	}
+	if prop == "C18" {
+		st := Step{Disk: &DiskOp{Kind: "lock_missing"}}
+		sc.Steps = append(sc.Steps, st)
+		r.ExecStep(st)
 	}
 	inflated := false
 	if (prop == "C01" || prop == "C02") && rng.Chance(1, 6) {
